@@ -33,13 +33,14 @@ MOD2 = list("₌₍")
 PREAMBLE = ("From Coq Require Import List NArith ZArith Bool.\n"
             "From Vy Require Import Model.Base Model.Lexer Model.Parser Model.Values Model.Machine Model.RefSem.\n"
             "Import ListNotations.\nOpen Scope Z_scope.\n"
-            "Definition vy_case (which : bool) (c : list N * flag * list value * nat * list value * list N) : nat :=\n"
+            "(* 10 * (machine vs observation) + (reference vs observation); 55 not in the core, 66 no parse *)\n"
+            "Definition vy_case (c : list N * flag * list value * nat * list value * list N) : nat :=\n"
             "  let '(src, fl, ins, e, st, o) := c in\n"
             "  match parse_source src with\n"
             "  | Ok p => if core_ok_list false p\n"
-            f"            then compare_run (if which then run_machine fl {FUEL} ins p else run_ref fl {FUEL} ins p) e st o\n"
-            "            else 5%nat\n"
-            "  | _ => 6%nat end.\n")
+            f"            then (10 * compare_run (run_machine fl {FUEL} ins p) e st o + compare_run (run_ref fl {FUEL} ins p) e st o)%nat\n"
+            "            else 55%nat\n"
+            "  | _ => 66%nat end.\n")
 
 
 # ----------------------------------------------------------------------------------------------
@@ -53,6 +54,8 @@ class CoreGen(progs.ProgGen):
         super().__init__(rng, elements=PURE_ELEMENTS, with_break=False, max_items=max_items)
         self.names = ["a", "b"]
         self.fnames = ["f", "g"]
+        self.defined = set()
+        self.fdefined = set()
 
     def num(self):
         r = self.rng
@@ -63,17 +66,25 @@ class CoreGen(progs.ProgGen):
         x = r.random()
         if x < 0.30:
             return self.num() + " "
-        if x < 0.72:
+        if x < 0.74:
             return r.choice(PURE_ELEMENTS)
-        if x < 0.80 and not pure:
+        if x < 0.82 and not pure:
             return r.choice(EFFECT_ELEMENTS)
-        if x < 0.86:
+        if x < 0.84:
             return r.choice(CALL_ELEMENTS)
-        if x < 0.93 and not pure:
+        if x < 0.91 and not pure:
+            known = sorted(self.defined)
+            if known and r.random() < 0.9:
+                return "←" + r.choice(known) + " "
             return "←" + r.choice(self.names) + " "
-        if x < 0.97 and not pure and not indef:
-            return "→" + r.choice(self.names) + " "
+        if x < 0.96 and not pure and not indef:
+            n = r.choice(self.names)
+            self.defined.add(n)
+            return "→" + n + " "
         if not pure:
+            known = sorted(self.fdefined)
+            if known and r.random() < 0.9:
+                return "@" + r.choice(known) + ";"
             return "@" + r.choice(self.fnames) + ";"
         return r.choice(PURE_ELEMENTS)
 
@@ -144,7 +155,9 @@ class CoreGen(progs.ProgGen):
             out = "λ"
             if r.random() < 0.5:
                 out += str(r.choice([0, 1, 1, 2, 2, 3])) + "|"
-            return out + b(True, pure) + ";"
+            out += b(True, pure) + ";"
+            x = r.random()
+            return out + ("†" if x < 0.45 else "M" if x < 0.55 else "F" if x < 0.62 else "")
         if k == 7:
             return "ƛ" + b(True, True) + ";"
         if k == 8:
@@ -157,12 +170,16 @@ class CoreGen(progs.ProgGen):
         if k == 11 and not indef and not pure:
             name = r.choice(self.fnames)
             params = r.choice(["", ":1", ":2", ":1:1", ":0", ":3"])
-            return "@" + name + params + "|" + b(True, False) + ";"
-        if not pure:
-            return "@" + r.choice(self.fnames) + ";"
+            body = b(True, False)
+            self.fdefined.add(name)
+            return "@" + name + params + "|" + body + ";"
+        if not pure and self.fdefined:
+            return "@" + r.choice(sorted(self.fdefined)) + ";"
         return "ƛ" + b(True, True) + ";"
 
     def program(self, depth=3):
+        self.defined = set()
+        self.fdefined = set()
         return self.seq(depth, False, False, 1)
 
 
@@ -188,11 +205,13 @@ ERR_CODE = {None: 0, "NameError": 1, "UnboundLocalError": 1, "IndexError": 2}
 def impl_run(item):
     """(src, inputs as strings, flag) -> (error code, stack canonical bottom first, stdout)"""
     src, inputs, flag = item
+    import time
     from vlib import runprog
+    t0 = time.time()
     r = runprog.run(src, list(inputs), flag)
     err = r["error"]
     code = ERR_CODE.get(err, 9)
-    return (code, r["stack"] if code == 0 else [], r["out"], err)
+    return (code, r["stack"] if code == 0 else [], r["out"], err, time.time() - t0)
 
 
 def enc_value(v):
@@ -226,16 +245,15 @@ def case_coq(src, flag, inputs, code, stack, out):
     return f"({V.cstr(src)}, {FLAG_COQ[flag]}, {ins}, {code}%nat, {st}, {V.cstr(out)})"
 
 
-def coq_codes(env_or_prop, name, cases, which, shard=150, timeout=900):
-    """Evaluate the model (which=True: Machine, False: RefSem) on the cases inside Coq.
-    Returns (list of outcome codes or None per case, logs)."""
-    prop = env_or_prop if isinstance(env_or_prop, str) else env_or_prop.prop
+def coq_codes(prop, name, cases, shard=60, timeout=300):
+    """Evaluate both models on the cases inside Coq.  Returns (list of (machine code, reference
+    code) or None per case, logs of the shards that did not evaluate)."""
     files = []
     spans = []
     for lo in range(0, len(cases), shard):
         hi = min(len(cases), lo + shard)
         text = (PREAMBLE + "Definition vy_cases := [" + ";\n".join(case_coq(*c) for c in cases[lo:hi]) + "].\n"
-                + f"Eval vm_compute in (map (vy_case {'true' if which else 'false'}) vy_cases).\n")
+                + "Eval vm_compute in (map vy_case vy_cases).\n")
         files.append((f"{name}_{lo}", text))
         spans.append((lo, hi))
     res = V.coq_eval_many(prop, files, timeout)
@@ -244,7 +262,222 @@ def coq_codes(env_or_prop, name, cases, which, shard=150, timeout=900):
     for (fname, _), (ok, out), (lo, hi) in zip(files, res, spans):
         vals = V.parse_nat_list(out) if ok else None
         if vals is None or len(vals) != hi - lo:
-            logs.append(f"{fname}: {out[-1500:]}")
+            logs.append((lo, hi, f"{fname}: {out[-1200:]}"))
             continue
-        codes[lo:hi] = vals
+        codes[lo:hi] = [divmod(v, 10) for v in vals]
     return codes, logs
+
+
+# ----------------------------------------------------------------------------------------------
+# a pool whose workers can be killed (a program may block inside C code -- big-number
+# arithmetic -- where the alarm of V.pmap is not delivered)
+# ----------------------------------------------------------------------------------------------
+def _pool_worker(fn, items, idxs, conn, soft):
+    import os
+    try:
+        import resource
+        resource.setrlimit(resource.RLIMIT_AS, (4 << 30, 4 << 30))
+    except Exception:  # noqa: BLE001
+        pass
+    V._quiet_worker()
+    try:
+        for i in idxs:
+            conn.send((i, V._guarded((fn, items[i], soft))))
+        conn.send(None)
+    except BaseException:  # noqa: BLE001
+        pass
+    finally:
+        conn.close()
+        os._exit(0)
+
+
+def hard_pmap(fn, items, soft=4.0, hard=12.0, procs=8):
+    """like V.pmap; a case that blocks or kills its worker is reported as timeout / exc after
+    `hard` seconds and the rest of that worker's share goes to a fresh process"""
+    import multiprocessing
+    import time
+    from multiprocessing.connection import wait
+    mp = multiprocessing.get_context("fork")
+    n = len(items)
+    out = [None] * n
+    if n == 0:
+        return []
+    procs = max(1, min(procs, n))
+    live = {}
+
+    def spawn(idxs):
+        if not idxs:
+            return
+        r, w = mp.Pipe(duplex=False)
+        pr = mp.Process(target=_pool_worker, args=(fn, items, idxs, w, soft), daemon=True)
+        pr.start()
+        w.close()
+        live[r] = {"proc": pr, "idxs": idxs, "pos": 0, "t": time.time()}
+
+    for k in range(procs):
+        spawn(list(range(k, n, procs)))
+    while live:
+        ready = wait(list(live), timeout=1.0)
+        now = time.time()
+        for r in ready:
+            st = live[r]
+            try:
+                msg = r.recv()
+            except (EOFError, OSError):
+                msg = "dead"
+            if msg is None or msg == "dead":
+                st["proc"].join(timeout=1)
+                if st["proc"].is_alive():
+                    st["proc"].kill()
+                rest = st["idxs"][st["pos"]:]
+                del live[r]
+                r.close()
+                if msg == "dead" and rest:
+                    out[rest[0]] = ("exc", "worker died")
+                    spawn(rest[1:])
+                continue
+            i, val = msg
+            out[i] = val
+            st["pos"] += 1
+            st["t"] = now
+        for r in list(live):
+            st = live[r]
+            if now - st["t"] > hard:
+                st["proc"].kill()
+                st["proc"].join(timeout=2)
+                rest = st["idxs"][st["pos"]:]
+                del live[r]
+                r.close()
+                if rest:
+                    out[rest[0]] = ("timeout", "hard")
+                    spawn(rest[1:])
+    return [o if o is not None else ("exc", "lost") for o in out]
+
+
+# ----------------------------------------------------------------------------------------------
+# the check
+# ----------------------------------------------------------------------------------------------
+INPUT_SETS = [[], ["3"], ["2", "5"], ["[1,2,3]"], ["4", "[5,6]"], ["0"], ["7", "1", "2"], ["[[1,2],3]", "2"]]
+STRUCT_CHARS = {"[": "if", "(": "for", "{": "while", "λ": "lambda", "ƛ": "map-lambda", "'": "filter-lambda", "⟨": "list",
+                "@": "function", "v": "mod-v", "&": "mod-&", "~": "mod-~", "ß": "mod-ß", "ƒ": "mod-ƒ", "ɖ": "mod-ɖ", "₌": "mod-₌",
+                "₍": "mod-₍", "⁽": "short-1", "‡": "short-2", "≬": "short-3", "→": "var-set", "←": "var-get", "†": "call"}
+MEANING = {0: "agree", 1: "DIFFER", 2: "outside-domain(EStuck)", 3: "out-of-fuel", 4: "guard(ENotCore)", 5: "not-core", 6: "no-parse"}
+
+
+def build_items(env):
+    rng = env.rng
+    g = CoreGen(rng)
+    depth = env.budget(3, 4)
+    n_gen = env.budget(1100, 9000)
+    progs_ = []
+    seen = set()
+    while len(progs_) < n_gen:
+        s = g.program(rng.randint(1, depth))
+        if s.strip() and s not in seen and len(s) <= 90:
+            seen.add(s)
+            progs_.append(s)
+    items = []
+    for s in SEEDS:                       # every seed under every flag set, two input lists
+        for fl in FLAGS:
+            items.append((s, [], fl))
+        items.append((s, ["3", "4"], ""))
+        items.append((s, ["[1,2]", "5"], "W"))
+    for i, s in enumerate(progs_):        # generated: flags in rotation + one more random run
+        items.append((s, INPUT_SETS[rng.randrange(len(INPUT_SETS))], FLAGS[i % len(FLAGS)]))
+        items.append((s, INPUT_SETS[rng.randrange(len(INPUT_SETS))], rng.choice(FLAGS)))
+    return list(dict.fromkeys((s, tuple(i), f) for s, i, f in items)), progs_
+
+
+def run(env):
+    env.rule = ("programs of the core grammar (generator CoreGen: number literals, the 36 core elements, variables, function definitions / "
+                "calls, if / for / while, lambdas λ ƛ ' and shorthands ⁽ ‡ ≬, list literals, modifiers v & ~ ß ƒ ɖ ₌ ₍; nesting depth <= 3 quick, "
+                "<= 4 thorough) plus hand-written seeds; each run = program x input list (8 lists of small ints / int lists) x one of the nine "
+                "flag sets; compared: final stack (top popped by the implicit output), stdout, error class. (1) Machine.exec vs implementation "
+                "-> disagreement; (2) RefSem.eval vs implementation -> the property fails; (3) exact text of transpile(). Both models are "
+                "evaluated inside Coq (vm_compute). Non-trivial = the run agreed AND the program contains a structure or modifier; distinct "
+                "by (program, inputs, flag).")
+    V.import_repo()
+    items, generated = build_items(env)
+    res = hard_pmap(impl_run, items, soft=env.budget(3, 4), hard=env.budget(9, 12), procs=min(V.NPROC, 10))
+    cases, meta = [], []
+    skipped = {"timeout": 0, "harness-exc": 0, "slow": 0, "long-output": 0, "value-outside-int/list/function": 0}
+    for it, (st, r) in zip(items, res):
+        if st == "timeout":
+            skipped["timeout"] += 1
+            continue
+        if st != "ok":
+            skipped["harness-exc"] += 1
+            continue
+        code, stack, out, err, dt = r
+        if dt > 0.25:
+            skipped["slow"] += 1
+            continue
+        if len(out) > 1200 or len(str(stack)) > 2500:
+            skipped["long-output"] += 1
+            continue
+        enc = [enc_value(v) for v in stack]
+        if any(e is None for e in enc):
+            skipped["value-outside-int/list/function"] += 1
+            enc = ["VInt (-424242)", "VInt (-424243)"]      # never equal to a model stack: a model that accepts this run differs
+        cases.append((it[0], it[2], list(it[1]), code, enc, out))
+        meta.append((it, err))
+    codes, logs = coq_codes(env.prop, "run", cases, shard=env.budget(60, 80), timeout=env.budget(240, 400))
+    for lo, hi, log in logs:
+        # one heavy case can starve a shard: re-evaluate its cases one by one, name the culprit
+        sub, sublogs = coq_codes(env.prop, f"retry{lo}", cases[lo:hi], shard=1, timeout=60)
+        codes[lo:hi] = sub
+    dist = {}
+    flags_seen = {}
+    constructs = {}
+    nontrivial = []
+    unevaluated = 0
+    for (it, err), c, case in zip(meta, codes, cases):
+        src, inputs, fl = it
+        if c is None:
+            unevaluated += 1
+            continue
+        m, r = c
+        key = f"machine:{MEANING.get(m, m)}/reference:{MEANING.get(r, r)}"
+        dist[key] = dist.get(key, 0) + 1
+        inp = {"program": src, "inputs": list(inputs), "flags": fl}
+        obs = {"error": err, "stack": case[4], "stdout": case[5]}
+        if m == 1:
+            env.disagree("machine (Model/Machine.v) vs implementation", inp, "(model outcome differs; evaluate run_machine in Coq)", obs)
+        elif m == 4:
+            env.disagree("machine entered a function whose body is outside the core", inp, "ENotCore", obs)
+        if r == 1:
+            env.fail(inp, "the implementation does not do what the documented structure semantics (Model/RefSem.v) says: final stack / stdout / "
+                          f"error differ; observed {obs}", cls=None)
+        if m != r:
+            env.proof_broken("C01_compile_correct contradicted by evaluation", f"{inp}: machine code {m}, reference code {r}")
+        if m == 0 and r == 0:
+            flags_seen[fl] = flags_seen.get(fl, 0) + 1
+            used = {v for k, v in STRUCT_CHARS.items() if k in src}
+            for u in used:
+                constructs[u] = constructs.get(u, 0) + 1
+            if used:
+                nontrivial.append(f"{src}\x00{inputs}\x00{fl}")
+    if unevaluated > max(3, len(cases) // 100):
+        env.proof_broken("too many correspondence cases could not be evaluated in Coq", f"{unevaluated} of {len(cases)}; {[l[2][-300:] for l in logs][:3]}")
+    env.count(len(cases), nontrivial)
+    # exact text of the transpiler on the same programs
+    transcorr.check(env, SEEDS + generated[: env.budget(500, 3000)], name="c01text", shard=env.budget(125, 300))
+    env.note("runs", {"total": len(items), "compared": len(cases), "skipped": skipped, "coq_unevaluated": unevaluated})
+    env.note("outcomes", dist)
+    env.note("agreeing_runs_per_flag_set", flags_seen)
+    env.note("agreeing_runs_per_construct", constructs)
+    env.note("programs", {"seeds": len(SEEDS), "generated": len(generated), "max_depth": env.budget(3, 4), "fuel": FUEL})
+    for s in SEEDS[:3] + generated[:5]:
+        env.sample({"program": s})
+    env.sample({"theorem": "C01_compile_correct: core_ok_list false p = true -> exec cf fuel false p s = eval cf fuel p s"})
+    env.assume("CPython executes the emitted lines as Model/Machine.v says (the principal modelled-not-verified link; validated on every "
+               "run by correspondence (1), and the emitted text itself by (3) against Model/Transpile.v)")
+    env.assume("the semantics of the 36 core elements and of the 8 modifier bodies (Model/Values.v) is shared by both evaluators: its fidelity is "
+               "checked by correspondence only; their template texts and arities are a proof obligation over the regenerated table (C01_templates)")
+    env.assume("lazy evaluation: maps / filters / vectorised calls are evaluated eagerly in the model; where that could be observed (a lazily "
+               "applied body that prints, reads or writes register / variables / input, or function values among the arguments) and where a "
+               "function value reaches arithmetic, a test or a printer, the model answers EStuck and the run is not compared (counted in outcomes)")
+    env.assume("integers and finite lists only (C13 covers the identification of finite lazy lists with lists); numbers below 10^40 when printed; "
+               "ranges up to 5000; stdin empty; fuel 60 nesting levels / while iterations, out-of-fuel runs are not compared")
+    env.assume("function-valued conditions / iterables are outside the model (Structures.md says they are called first, the implementation treats "
+               "them as true / fails): reported in the design notes, not compared")
